@@ -1008,4 +1008,4 @@ def check(ctx):
                                 "Guards.crash_gen / crash_call list the loud downstream failures of those probe models on the current tree "
                                 "(class 'other'); they are part of Impl, not of the guards",
                                 "mixed delay kinds (plain-delay edge + delay+spread edge, both orders) are run on the slice inplace=true, sparse=false",
-                                "F1-F5 are repaired (D48, D49, D76, D79, D109), their witnesses are regression cases; one guard is left: guard_solver_checked_at_entry (open finding C20-F6: get_run_func / get_jacobian_func do not validate solver=)"])
+                                "no guard is left: F1-F6 are repaired (D48, D49, D76, D79, D109, D113), C20_full_holds is unconditional; their witnesses are regression cases"])
